@@ -29,3 +29,6 @@ package inproc
 //@   ensures !wasClosed && had ==> result == mangos.ErrAddrInUse
 //@   ensures !wasClosed && !had ==> isnil(result) && has(listeners.byAddr, l.addr) && listeners.byAddr[l.addr] == l
 //@   ensures !isnil(result) ==> has(listeners.byAddr, l.addr) == had
+//@
+//@ func (*inproc).Close$1
+//@   may_close p.closeq once
